@@ -52,12 +52,12 @@ impl Cache for RecCache {
     fn clear_layer(&self, _: usize) {}
     fn clear(&self) {}
 }
-const T_INF: Wide = Wide::MAX / 4;
+pub const T_INF: Wide = Wide::MAX / 4;
 /// Largest SOUND threshold of every exact state (layer, base), from the reference model alone. An arrival with value w at (l, a)
 /// may be discarded iff every completion of it either is worth at most `incumbent` in total, or goes through a sub-problem that was
 /// handed out (`covered`: (depth, base) -> value v0) with an arrival value <= v0 (that sub-problem's own exploration subsumes it).
 /// T[l][a] = the largest such w (T_INF when (l, a) has no completion at all). Backward DP; arrival values only enter monotonically.
-fn sound_thresholds(inst: &Inst, incumbent: Wide, covered: &[(usize, usize, isize)]) -> Vec<Vec<Wide>> {
+pub fn sound_thresholds(inst: &Inst, incumbent: Wide, covered: &[(usize, usize, isize)]) -> Vec<Vec<Wide>> {
     let t = &inst.t;
     let mut tt = vec![vec![T_INF; t.s]; t.n + 1];
     for a in 0..t.s { tt[t.n][a] = incumbent; }
